@@ -21,7 +21,7 @@ import (
 func init() {
 	core.Register(&core.Simple{
 		Id: "C02", Lvl: "exploration", Quick: 420, Thorough: 14000, PerBatch: 140, Width: 140, Timeout: 2400,
-		RuleText: "each case builds one well-formed client session as a byte stream — control (handshake + login + 8-20 pipelined requests of ~25 kinds, payloads from empty to 60 KiB), download, upload (with/without resource fork), folder download (with an action script) or folder upload — and delivers the same bytes to identical fresh servers under a baseline (one segment) and 6-8 other partitions: 1-byte, fixed k in {2,3,5,11,12,13,16,20,22,23}, a single cut at position p (p sweeps 1..64 across the cases of a run), cuts at -1/0/+1 around a structural boundary (handshake end, transaction and field headers, preamble, FILP/fork/item headers), and seeded random partitions; outcomes compared: normalised multiset of transactions written back (server-chosen ids, reference numbers, chat ids, dates and password hashes blanked), the observer's inbox, a snapshot of config dir + file root, and for transfers the bytes written and files created. distinct = (session kind, partition class); non-trivial = every variant",
+		RuleText: "each case builds one well-formed client session as a byte stream — control (handshake + login + 8-20 pipelined requests of ~25 kinds, payloads from empty to 60 KiB), download, upload (with/without resource fork), folder download (with an action script) or folder upload (in half of them onto a partial left by an interrupted earlier upload, i.e. through the resume branch) — and delivers the same bytes to identical fresh servers under a baseline (one segment) and 6-8 other partitions: 1-byte, fixed k in {2,3,5,11,12,13,16,20,22,23}, a single cut at position p (p sweeps 1..64 across the cases of a run), cuts at -1/0/+1 around a structural boundary (handshake end, transaction and field headers, preamble, FILP/fork/item headers), and seeded random partitions; outcomes compared: normalised multiset of transactions written back (server-chosen ids, reference numbers, chat ids, dates and password hashes blanked), the observer's inbox, a snapshot of config dir + file root, and for transfers the bytes written and files created. distinct = (session kind, partition class); non-trivial = every variant",
 		Case:     runCase,
 	})
 }
@@ -205,6 +205,7 @@ type xferSession struct {
 	request    func(cl *refclient.Client) ([]byte, error) // control request, returns the reference number
 	stream     func(ref []byte) []byte                    // client bytes on the transfer connection
 	boundaries []int
+	prepare    func(fileRoot string) // files that are there before the session starts
 }
 
 func buildTransfer(r *core.Rand, kind string) xferSession {
@@ -272,7 +273,20 @@ func buildTransfer(r *core.Rand, kind string) xferSession {
 			body = append(body, fl...)
 			mark()
 		}
-		file(r.Bytes(1+r.Intn(3000)), "one.txt")
+		one := r.Bytes(2 + r.Intn(3000))
+		if r.Bool() {
+			// an earlier, interrupted upload of the folder left a partial of the first file: the server asks to resume it,
+			// and the client continues with the size and the rest of that file
+			k := 1 + r.Intn(len(one)-1)
+			head := append([]byte{}, one[:k]...)
+			s.prepare = func(root string) {
+				os.MkdirAll(filepath.Join(root, "Uploads", "SegFolder"), 0755)
+				os.WriteFile(filepath.Join(root, "Uploads", "SegFolder", "one.txt.incomplete"), head, 0644)
+			}
+			file(one[k:], "one.txt")
+		} else {
+			file(one, "one.txt")
+		}
 		item(true, "nested")
 		file(r.Bytes(r.Intn(20000)), "nested", "two.bin")
 		file(nil, "nested", "empty.dat")
@@ -292,6 +306,9 @@ func runTransfer(s xferSession, part func(stream []byte) [][]byte) (outcome, err
 		return o, err
 	}
 	defer srv.Close()
+	if s.prepare != nil {
+		s.prepare(srv.FileRoot)
+	}
 	cl, err := refclient.LoginAs(srv, "10.2.3.1:1", "admin", "", "Xfer")
 	if err != nil {
 		return o, err
